@@ -79,6 +79,13 @@ fn gen_spec(rng: &mut Rng, id: u64) -> TrackSpec {
             obs.push((*c, oa, f));
         }
     }
+    // a class that the track knows but that holds no observation (its only observation was discarded by optimize)
+    if rng.chance(0.25) {
+        let c = rng.usize(4) as u64;
+        if !obs.iter().any(|o: &(u64, Option<f32>, Option<Vec<f32>>)| o.0 == c) {
+            obs.push((c, Some(-1.0), None));
+        }
+    }
     let pm = if rng.chance(0.5) { (0..1 + rng.usize(3)).map(|i| (1000 + id * 10 + i as u64, rng.chance(0.7))).collect() } else { vec![] };
     TrackSpec { id, compat: 1, counter: rng.range(0, 5), obs, prior_merges: pm }
 }
